@@ -547,6 +547,15 @@ func c19Sequence(c *Ctx, i int, r *Rng, add func(line, impl, cas string)) {
 	os.WriteFile(cfgFile, []byte("[user]\n\tname = v\n\temail = v@example.invalid\n"), 0o644)
 	env := []string{"GIT_CONFIG_GLOBAL=" + cfgFile, "GIT_LFS_TRACK_NO_INSTALL_HOOKS=1", "PATH=" + filepath.Dir(c.Lfs) + ":" + os.Getenv("PATH")}
 	pre := Pick(r, []string{"", "# comment\n*.txt text\n", "*.txt text"})
+	// a file in which `*.bin` is ALREADY tracked and a later, more specific line takes a sub-tree out of LFS
+	// again (the spelling `git lfs migrate export` writes): changing the lock flag of `*.bin` must rewrite its
+	// line where it stands — moved behind the override it would put sub/*.bin back into LFS
+	preTracked := map[string]bool{}
+	if r.Chance(25) {
+		pre = "*.txt text\n*.bin filter=lfs diff=lfs merge=lfs -text\nsub/*.bin !filter !diff !merge !text\n"
+		preTracked["*.bin"] = true
+		c.R.Count("seq.pre-tracked-with-override")
+	}
 	if pre != "" {
 		os.WriteFile(filepath.Join(dir, ".gitattributes"), []byte(pre), 0o644)
 	}
@@ -555,6 +564,9 @@ func c19Sequence(c *Ctx, i int, r *Rng, add func(line, impl, cas string)) {
 	type st struct{ lockable bool }
 	active := map[string]*st{}
 	var order []string
+	for p := range preTracked {
+		active[p] = &st{false} // its line is in `pre`, not in `order`
+	}
 	var steps []string
 	var mops []string
 	n := 2 + r.Intn(4)
@@ -571,6 +583,9 @@ func c19Sequence(c *Ctx, i int, r *Rng, add func(line, impl, cas string)) {
 		if relock != "" && k < 2 {
 			p = relock
 			op = []int{1, 5}[k]
+		}
+		if len(preTracked) > 0 && k == 0 {
+			p, op = "*.bin", Pick(r, []int{1, 1, 2, 5})
 		}
 		// `track /x` while `x` (which covers it) is tracked with a lockable state that needs no change is
 		// "already supported": nothing is added, so a later `untrack x` leaves nothing behind for /x either
@@ -603,6 +618,7 @@ func c19Sequence(c *Ctx, i int, r *Rng, add func(line, impl, cas string)) {
 			args = []string{"untrack", p}
 			if _, ok := active[p]; ok {
 				delete(active, p)
+				delete(preTracked, p) // its line is gone; tracked again it is a new line at the end
 				for j, o := range order {
 					if o == p {
 						order = append(order[:j], order[j+1:]...)
@@ -658,11 +674,29 @@ func c19Sequence(c *Ctx, i int, r *Rng, add func(line, impl, cas string)) {
 		}
 		// the hand-written equivalent
 		var sb strings.Builder
-		sb.WriteString(pre)
+		for _, pl := range strings.SplitAfter(pre, "\n") {
+			f := strings.Fields(pl)
+			if len(f) > 1 && f[1] == "filter=lfs" {
+				// a pattern the file tracked from the start: its line stays where it is while the pattern is
+				// tracked (with the lock flag asked for), and goes when it is untracked
+				if preTracked[f[0]] {
+					sb.WriteString("\"" + f[0] + "\" filter=lfs diff=lfs merge=lfs -text")
+					if active[f[0]].lockable {
+						sb.WriteString(" lockable")
+					}
+					sb.WriteString("\n")
+				}
+				continue
+			}
+			sb.WriteString(pl)
+		}
 		if pre != "" && !strings.HasSuffix(pre, "\n") {
 			sb.WriteString("\n")
 		}
 		for _, o := range order {
+			if preTracked[o] {
+				continue
+			}
 			sb.WriteString("\"" + o + "\" filter=lfs diff=lfs merge=lfs -text")
 			if active[o].lockable {
 				sb.WriteString(" lockable")
